@@ -282,7 +282,7 @@ func c02Judge(res *vlib.Result, t *c02Transcript, mk func() *stream.Stream, R st
 	}
 	k := t.msgIndexAt(pos)
 	exp := t.msgs
-	if R == "frames" {
+	if R == "frames" || R == "frames-end" {
 		// frame-at-a-time API: every frame payload is a delivery unit
 		k, exp = t.frameIndexAt(pos), t.framePlain
 	}
@@ -308,6 +308,10 @@ func c02Judge(res *vlib.Result, t *c02Transcript, mk func() *stream.Stream, R st
 			m, err = c01Recv(rcv, "readmsgall", n)
 		case "frames":
 			m, err = rcv.ReceiveFrame(ctx)
+		case "frames-end":
+			// the other frame-at-a-time API; the returned slices are KEPT (not copied) until
+			// the end, as a consumer assembling a message from its frames would
+			m, _, err = rcv.ReceiveFrameWithEnd(ctx)
 		}
 		if err != nil {
 			rerr = err
@@ -455,7 +459,7 @@ func c02Ops() []c02Op {
 func C02Plan() *vlib.Plan {
 	p := &vlib.Plan{
 		Property: "C02", Level: "fault_enumeration",
-		Rule:   "E-FAULT: recorded AES-GCM transcripts (3-frame, empty, 2-frame, 1-frame message; thorough adds a 5000-byte multi-frame message) in both directions (and once after a PutSecret/GetSecret exchange on the already encrypting stream) x every single fault: each bit of every header/IV/ciphertext/tag flipped, truncation at every byte, every frame dropped/duplicated/swapped/replayed later, length fields +-1/+-16, a forged frame (7 lengths x 5 end flags x 2 bodies) a cross-direction frame inserted at every position, and each of the receiver's own first 7 protected frames reflected back at every position; thorough: all ordered pairs of frame-level faults. 4 receive APIs (whole message, typed remaining bytes, ReadMessage, and frame-at-a-time ReceiveFrame). Non-trivial = the mutated wire differs from the recorded one and was fed to the receiver; case ids are distinct by construction.",
+		Rule:   "E-FAULT: recorded AES-GCM transcripts (3-frame, empty, 2-frame, 1-frame message; thorough adds a 5000-byte multi-frame message) in both directions (and once after a PutSecret/GetSecret exchange on the already encrypting stream) x every single fault: each bit of every header/IV/ciphertext/tag flipped, truncation at every byte, every frame dropped/duplicated/swapped/replayed later, length fields +-1/+-16, a forged frame (7 lengths x 5 end flags x 2 bodies) a cross-direction frame inserted at every position, and each of the receiver's own first 7 protected frames reflected back at every position; thorough: all ordered pairs of frame-level faults. 5 receive APIs (whole message, typed remaining bytes, ReadMessage, frame-at-a-time ReceiveFrame, and ReceiveFrameWithEnd with the returned slices kept until the end). Non-trivial = the mutated wire differs from the recorded one and was fed to the receiver; case ids are distinct by construction.",
 		Assume: []string{"the receiver learns the peer IV from the wire, so a recorded transcript replays deterministically", "Go crypto/aes+cipher (GCM) trusted"},
 	}
 	p.Gen = func(tier string, yield func(vlib.Case)) {
@@ -481,9 +485,9 @@ func C02Plan() *vlib.Plan {
 				}})
 				continue
 			}
-			for _, R := range []string{"complete", "typed", "readmsg", "frames"} {
+			for _, R := range []string{"complete", "typed", "readmsg", "frames", "frames-end"} {
 				R := R
-				if R == "frames" {
+				if R == "frames" || R == "frames-end" {
 					goto faults
 				}
 				yield(vlib.Case{ID: fmt.Sprintf("%s/%s/baseline", dir, R), Run: func() *vlib.Result {
